@@ -163,7 +163,7 @@ impl Ipv6Packet {
     pub fn set_flow_label(&self, flow_label: Rc<Object>) -> Result<(), String> {
         match flow_label.as_ref() {
             Object::Integer(flow_label) => {
-                self.header.borrow_mut().flow_label = *flow_label as u32;
+                self.header.borrow_mut().flow_label = (*flow_label as u32) & 0xFFFFF;
                 Ok(())
             }
             _ => Err("Invalid value for Ipv6 property flow label".to_string()),
